@@ -1,7 +1,7 @@
 SPECIFICATION Spec
 CONSTANTS
-  StepCount = 3
-  MaxScen = 2
+  StepCount = 2
+  MaxScen = 3
   MaxSuites = 2
   MaxFail = 0
   FixDrain = TRUE
@@ -13,7 +13,7 @@ CONSTANTS
   AllowCtrlC = TRUE
   AllowError = TRUE
   AliveCheck = TRUE
-  NKinds = 2
+  NKinds = 1
 INVARIANT ProtocolOK
 INVARIANT ClosedAtEnd
 INVARIANT NoProblemLost
